@@ -884,6 +884,18 @@ def _deprecated_arguments_fall_back_on_the_parameter_they_name(ctx: Ctx):
             if f.module is not mi:
                 continue
             for n in own_nodes(f.node):
+                if isinstance(n, ast.If) and n.orelse and (isinstance(n.test, ast.Name) or (
+                        isinstance(n.test, ast.UnaryOp) and isinstance(n.test.op, ast.Not) and isinstance(n.test.operand, ast.Name))):
+                    # the same construct with the argument tested for TRUTH: an explicit 0 / False counts as 'not given'
+                    xt = n.test.id if isinstance(n.test, ast.Name) else n.test.operand.id
+                    fb_ = n.orelse if isinstance(n.test, ast.Name) else n.body
+                    if any(isinstance(st, ast.Assign) and any(isinstance(t_, ast.Name) and t_.id == xt for t_ in st.targets) and isinstance(st.value, ast.Attribute)
+                           and isinstance(st.value.value, ast.Name) and st.value.value.id == "params" for st in fb_):
+                        n_sites += 1
+                        col.ob("G5", "S5", f"{mi.relname}::{f.qualname}::deprecated-argument({xt})-is-tested-against-None", False,
+                               f"`if {u(n.test)}:` decides whether the deprecated argument `{xt}` was given by its truth value: an explicit 0 (no context on "
+                               f"that side) or False is replaced by the parameter object's setting", mi.relname, n.lineno)
+                    continue
                 if not (isinstance(n, ast.If) and n.orelse and isinstance(n.test, ast.Compare) and len(n.test.ops) == 1
                         and isinstance(n.test.ops[0], (ast.IsNot, ast.Is)) and isinstance(n.test.comparators[0], ast.Constant)
                         and n.test.comparators[0].value is None and isinstance(n.test.left, ast.Name)):
